@@ -33,3 +33,7 @@ add("C08", "SEQ", "model_checking", "explicit-state BFS over session histories o
 add("C15", "SEQ", "model_checking", "exhaustive enumeration of a request grammar from several repository states on fresh instances",
     "Every request of a finite grammar (methods x routes x repository names inside and outside the OCI grammar x references, digests, session ids, state tokens, ranges, paging and mount parameters at and beyond their bounds x bodies) is executed from each of 4-5 prepared repository states on both stores; no panic, no 5xx, OCI error documents with registered (and, where unambiguous, the named) codes, and only grammar names may reach the store or the filesystem.",
     TRUSTED + " The grammar is a finite product, not every syntactically possible request.", "DESIGN.md section 4 C15")
+
+add("C16", "SEQ", "model_checking", "explicit-state BFS over two-repository histories on the implementation (bounded depth) with a filesystem-call log predicate",
+    "For ordered pairs of repository names (nested, prefixes of each other, names equal to layout entries) all histories up to the depth bound of pushes, sessions, the session id used through the other name, mounts in both directions and paged referrers links replayed against the other name are explored; in every distinct state the read transcript of every name of the universe is compared with the model, and every filesystem call of every request must stay inside the root and inside the addressed (or mount source) repository's directory, ancestors being touched by stat/mkdir only; a sentinel tree around the root must stay unchanged.",
+    TRUSTED, "DESIGN.md section 4 C16")
